@@ -88,6 +88,13 @@ def engines():
                      "flags": SAN, "deps": ["common/*.hpp"]}],
             "link": SAN + ["-lrapidcheck"],
         }
+        # the same engine as a libFuzzer target (bytes -> same generators)
+        e[name + "f"] = {
+            "tus": [{"src": name + "/main.cpp", "name": name + "_fuzz",
+                     "flags": FZ + ["-DVERIF_FUZZ"],
+                     "deps": ["common/*.hpp"]}],
+            "link": ["-fsanitize=fuzzer,address,undefined", "-lrapidcheck"],
+        }
     return e
 
 
@@ -246,15 +253,23 @@ prop("C03", engine="e1", program="c03", rule=(
     "random registries; after update the next pointer written for every "
     "definition is compared with the model's select() over strictly more "
     "general definitions; non-trivial = some definition has >= 2 strictly "
-    "more general definitions. Third generator (programs): a class DAG, a method declared and "
-    "defined with the macros (plain or in a method container), every "
-    "definition records itself and calls next; the chains D > next(D) > ... "
-    "and the final error of every tuple are compared with the model, before "
-    "and after a second update"),
+    "more general definitions; one definition is then unregistered and "
+    "update runs again. Second generator (typed universe): next as written "
+    "through the pointer given to the library's add_function (each function "
+    "also registered a second time without a pointer). Third generator "
+    "(programs): a class DAG registered in arbitrary order, a method, and "
+    "definitions in one of eight styles (define_method, in a method "
+    "container, define_method_inline, add_definition of a container with "
+    "use_next<> / its own static next / method::next<>, add_function with "
+    "a next pointer, the same instantiated twice); every definition "
+    "records itself and calls next; the chains D > next(D) > ... and the "
+    "final error of every tuple are compared with the model, before and "
+    "after a second update"),
     quick=dict(also=[dict(engine="e2", workers=3, cases=1500)], cases=20000, size=60), thorough=dict(also=[dict(engine="e2", workers=3, cases=20000)], cases=300000, size=100))
 prop("C04", engine="e1", rule=(
     "lattice-biased random registries, canonical and arbitrary legal "
-    "presentations; slot injectivity per class from installed slots, "
+    "presentations, classes flagged abstract at random and used as dynamic "
+    "classes all the same (objects under construction); slot injectivity per class from installed slots, "
     "bounds-checked re-implementation of the table walk, real resolve under "
     "ASan; non-trivial = a class with >= 2 direct bases exists and >= 2 "
     "(method, parameter) pairs share a class"),
@@ -282,13 +297,19 @@ prop("C05", engine="e4", rule=(
     "v-table pointer (indirect: its address; checked: control entry); "
     "checked variant: neighbours, bit flips, unregistered family members, "
     "0, and ids brute-forced to land on an occupied bucket or past "
-    "hash_length are all rejected with unknown_class_error carrying the id; "
+    "hash_length are all rejected with unknown_class_error carrying the id, "
+    "as is every id an earlier step registered and a later one removed; in "
+    "one step of ten two probes are repeated in a forked child whose handler "
+    "returns: the child must abort, not obtain an index; "
     "non-trivial = >= 2 ids and (a colliding unregistered probe was found "
     "or the history shrinks or the budget was exhausted)"),
     technique="property-based testing (rapidcheck) over id-set histories "
-              "with fault injection of the search budget; invariant oracle",
+              "with fault injection of the search budget; invariant oracle; "
+              "thorough tier adds coverage-guided fuzzing (libFuzzer) of "
+              "the same generator and oracle",
     quick=dict(cases=1500, size=60),
-    thorough=dict(cases=20000, size=100, env={"VERIF_E4_MAX_IDS": "400"}))
+    thorough=dict(cases=20000, size=100, env={"VERIF_E4_MAX_IDS": "400"},
+                  fuzz=dict(engine="e4f", workers=4, runs=15000)))
 prop("C06", engine="e1", rule=(
     "random registries x 2..5 random permutations of class-record, method "
     "and definition registration orders (all permutations for one case in "
@@ -367,7 +388,10 @@ prop("C11", engine="e2", program="c11", rule=(
     "virtual base, two levels, virtual diamond) x position of the virtual "
     "parameter (arity 1..3) x non-virtual categories (int, tracked by value "
     "from lvalue / rvalue, T&, const T&, T&&, move-only unique_ptr&& and by "
-    "value) x return category x policy; ~24-40 cases per translation unit, "
+    "value) x return category x policy (debug, release, or a custom-rtti "
+    "policy with minimal_rtti static ids and a dynamic id field) x for T* "
+    "whether the definition is a member function registered with "
+    "add_member_function; ~24-40 cases per translation unit, "
     "compiled against /repo/include with ASan+UBSan and run; the caller "
     "computes the expected address with static_cast, checks ownership, "
     "values, addresses of reference arguments, and copy / move counts at "
@@ -386,9 +410,13 @@ prop("C20", engine=None, program="c20", rule=(
     "both sides of the 512-element split: 506, 512, 513, 529, 576, 3-list "
     "512 and 576, ...), a definition template with a pseudo-random subset "
     "of combinations marked not_defined (probability 0 / 0.1 / 0.5 / 0.9 / "
-    "1), in two styles (primary defined + not_defined specialisations, or "
-    "primary not_defined + defined specialisations); static_asserts on the "
-    "size and order of product<>; at run time the method's catalog must "
+    "1), in five styles (primary defined + not_defined specialisations; "
+    "primary not_defined + defined specialisations; per-position traits "
+    "deriving from not_defined, publicly or privately; two methods of the "
+    "same signature whose definitions inherit fn from a method-independent "
+    "base); static_asserts on the size and order of product<> and whole-"
+    "list static_asserts of apply_product, transform_product and product on "
+    "small lists; at run time the method's catalog must "
     "hold exactly one definition per defined combination, every defined "
     "combination called with its exact classes must run its own definition "
     "and every other combination must be reported as not implemented; a "
@@ -406,7 +434,8 @@ prop("C12", engine="e1", program="c13", rule=(
     "with the parsed numbers and must dispatch every tuple like the model "
     "with the consistency check silent, then each number is perturbed in "
     "turn and the checked policy must raise static_slot_error / "
-    "static_stride_error before any body runs; non-trivial = a method of "
+    "static_stride_error before any body runs (once per case also in a "
+    "forked child whose handler returns, which must abort); non-trivial = a method of "
     "arity >= 3 (first arity where grouped and interleaved layouts differ); "
     "plus generated two-stage programs (see C13) compiled with the generated "
     "offsets under checked and unchecked policies"),
@@ -453,7 +482,11 @@ prop("C15", engine="e1", rule=(
     "unknown_class with its id) or as the dynamic class of a virtual "
     "argument at any position through a reference or a virtual_ptr built "
     "from a base reference (the call must report unknown_class with its id, "
-    "exactly once, no body runs); checked configurations only; non-trivial "
+    "exactly once, no body runs; once per case also in a forked child whose "
+    "handler returns, which must abort); typed universe: per-class records "
+    "(pack or type-list form) with one class omitted, every route, and "
+    "final / virtual_shared_ptr::final given another dynamic type; checked "
+    "configurations only; non-trivial "
     "= left out as method/definition parameter, or dynamic at position >= 2 "
     "or through a virtual_ptr"),
     quick=dict(also=[dict(engine="e2", workers=4, cases=1500)], cases=10000, size=60), thorough=dict(also=[dict(engine="e2", workers=4, cases=20000)], cases=100000, size=100))
@@ -469,10 +502,12 @@ prop("C18", engine="e5", variants=["list", "catalogs"], rule=(
     "constructed and destroyed in zeroed storage; non-trivial = a removal "
     "of a middle or last element followed by a push"),
     technique="model-based stateful property testing (rapidcheck) plus "
-              "bounded exhaustive enumeration of operation sequences",
+              "bounded exhaustive enumeration of operation sequences; "
+              "thorough tier adds coverage-guided fuzzing (libFuzzer)",
     quick=dict(cases=40000, size=60,
                extra=[["--exhaustive", "8", "--nodes", "3"]]),
     thorough=dict(cases=200000, size=100,
+                  fuzz=dict(engine="e5f", workers=4, runs=300000),
                   extra=[["--exhaustive", "9", "--nodes", "3"],
                          ["--exhaustive", "7", "--nodes", "4"]]))
 prop("C19", engine="e6", variants=["names", "types"], rule=(
@@ -482,7 +517,10 @@ prop("C19", engine="e6", variants=["names", "types"], rule=(
     "scope prefix of the other are outside the domain); (b) type "
     "descriptions from a grammar of cv-qualifiers, pointers, references, "
     "arrays, function types, std:: / yorel:: / user templates with nested "
-    "arguments, all fundamental types, user classes in namespaces; the "
+    "arguments, non-type template arguments as a demangler prints them "
+    "(3ul, -1, true, (char)65), noexcept function types, all fundamental "
+    "types incl. decltype(nullptr) and __int128, user classes in "
+    "namespaces; the "
     "output is parsed: only namespace/class/} lines, balanced, and the set "
     "of fully qualified classes declared equals the requested set (a) / "
     "the ground-truth set of user classes (b), each once; non-trivial = "
@@ -490,8 +528,11 @@ prop("C19", engine="e6", variants=["names", "types"], rule=(
     "(b) a user class together with cv-qualifiers, templates or multi-word "
     "fundamental types"),
     technique="grammar-based property testing (rapidcheck) with a parser "
-              "of the emitted declarations as oracle",
-    quick=dict(cases=6000, size=60), thorough=dict(cases=200000, size=100))
+              "of the emitted declarations as oracle; thorough tier adds "
+              "coverage-guided fuzzing (libFuzzer) of the same grammar",
+    quick=dict(cases=6000, size=60),
+    thorough=dict(cases=200000, size=100,
+                  fuzz=dict(engine="e6f", workers=4, runs=150000)))
 prop("C16", engine="e2t", tsan=True, rule=(
     "typed universe built with -fsanitize=thread: a random registry is "
     "updated, the sequential answer of every tuple of 22 methods is "
